@@ -13,9 +13,16 @@ import (
 
 // C05: left-recursive expression grammars evaluate like a reference evaluator.
 
-func c05eval(a *arithParsers, raw string) (v interface{}, err error, pan string, calls int) {
+// c05eval evaluates raw; the file is the (1+len(before))-th of a shared file set, as when several
+// inputs are evaluated in sequence with one file set
+func c05eval(a *arithParsers, raw string, before []string) (v interface{}, err error, pan string, calls int) {
+	fs := parsley.NewFileSet()
+	for i, b := range before {
+		fs.AddFile(text.NewFile(fmt.Sprintf("earlier%d", i), []byte(b)))
+	}
 	f := text.NewFile("f", []byte(raw))
-	ctx := parsley.NewContext(parsley.NewFileSet(f), text.NewReader(f))
+	fs.AddFile(f)
+	ctx := parsley.NewContext(fs, text.NewReader(f))
 	func() {
 		defer func() {
 			if e := recover(); e != nil {
@@ -66,6 +73,12 @@ func c05exec(j run.Job, a *run.Acc) {
 		if r.Intn(40) == 0 {
 			ar = newArith() // a freshly constructed grammar from time to time
 		}
+		var before []string // earlier inputs registered in the same file set (none in half of the cases)
+		if r.Intn(2) == 0 {
+			for k := 1 + r.Intn(3); k > 0; k-- {
+				before = append(before, []string{"1 + 2 * 3", "7", "", "(4 - 1) / 0\n", strings.Repeat("9 * ", 20) + "1"}[r.Intn(5)])
+			}
+		}
 		if !a.Begin() {
 			continue
 		}
@@ -79,9 +92,9 @@ func c05exec(j run.Job, a *run.Acc) {
 			// offsets known by construction refer to raw; line/column on the CRLF-normalised content
 			norm := string(specNormalise([]byte(raw)))
 			want, bad := arithEval(ast)
-			v, err, pan, calls := c05eval(ar, raw)
+			v, err, pan, calls := c05eval(ar, raw, before)
 			a.Count("parser calls", int64(calls))
-			d := map[string]any{"input": raw, "calls": calls}
+			d := map[string]any{"input": raw, "calls": calls, "earlier_files_in_the_set": before}
 			switch {
 			case pan != "":
 				d["panic"] = pan
@@ -134,9 +147,9 @@ func c05exec(j run.Job, a *run.Acc) {
 		in := string(mutated)
 		norm := string(specNormalise(mutated))
 		ok, want, div := arithRecognise(norm)
-		v, err, pan, calls := c05eval(ar, in)
+		v, err, pan, calls := c05eval(ar, in, before)
 		a.Count("parser calls", int64(calls))
-		d := map[string]any{"input": in, "original": raw}
+		d := map[string]any{"input": in, "original": raw, "earlier_files_in_the_set": before}
 		switch {
 		case pan != "":
 			d["panic"] = pan
@@ -185,7 +198,7 @@ func init() {
 			n, per := 16, 600
 			depth := 6
 			if tier == "thorough" {
-				n, per, depth = 64, 1200, 10
+				n, per, depth = 64, 1200, 8
 			}
 			for i := 0; i < n; i++ {
 				jobs = append(jobs, run.Job{Family: "generated", Seed: seed*100000 + int64(i), N: per, P: map[string]int{"depth": depth}})
